@@ -1,7 +1,7 @@
 (* C09: a syntax error stays inside the method that contains it -- assembly.
    LocalitySpan.v : a method span is parsed as a unit (take_until + own slice), top-level loop compositional;
    FrameRel/FrameTop: what is parsed later does not depend on the diagnostics or cache contents left behind;
-   DiagRel        : diagnostics of a body parsed on its slice start at a token of the body, or are 0:0-0:0;
+   DiagRel        : diagnostics of a body parsed on its slice start and end at tokens of the body (no 0:0-0:0 exception);
    MemoRel        : the memo switch is constant;   HeaderShape: a syntactic class of headers. *)
 From GoldV Require Import Base Tokens Lexer AstKinds Tree Strings PComb Grammar ParserWF GrammarWF GrammarRel
                           LocalitySpan FrameRel FrameTop DiagRel MemoRel HeaderShape.
